@@ -42,7 +42,18 @@ func (m *DisconnectMessage) Decode(src []byte) (int, error) {
 		return n, fmt.Errorf("%s/Decode: Invalid remaining length %d. Expecting %d", m.Name(), m.remlen, 0)
 	}
 
+	m.dirty = false
+
 	return n, nil
+}
+
+// Len returns the length of the message.
+func (m *DisconnectMessage) Len() int {
+	if !m.dirty {
+		return len(m.dbuf)
+	}
+
+	return m.header.msglen()
 }
 
 // Encode encodes the message.
